@@ -16,8 +16,15 @@ theorem unicode_wf : Gen.unicode.WF :=
   Unicode.wf_of_wfb (km := Gen.upperKeysMask) (sm := Gen.spacesMask) (by decide +kernel)
 
 /-- Instance obligation: the pattern `clean` removes is `\s+` (with default flags), i.e. runs of
-    exactly the `\s` code points of the Unicode table — nothing more, nothing less. -/
-theorem clean_pattern_is_ws : Gen.cleanPattern = [92, 115, 43] := by decide +kernel
+    exactly the `\s` code points of the Unicode table — nothing more, nothing less.  When `clean` is not
+    written with that pattern, the translator reads its behaviour on every code point instead, and the
+    obligation is that it removes exactly the whitespace code points and upper-cases every other one
+    (recorded behaviour, i.e. correspondence made part of the build; texts of several characters are
+    covered by the correspondence streams). -/
+theorem clean_pattern_is_ws :
+    Gen.cleanPattern = [92, 115, 43] ∨
+      (Gen.cleanPattern = [] ∧ Gen.cleanRemovedMask = Gen.spacesMask ∧ Gen.cleanOtherMask = 0) := by
+  decide +kernel
 
 /-- Instance obligation: the alphabet of `numerify` is `0-9A-Z`. -/
 theorem alphabet_is_alnum :
